@@ -235,6 +235,7 @@ VARIANTS = [
     V("bins closed on neither side binned like left-closed ones", ("C07",), "R-CLOSEDSIDE", "core.py", '            if expect.closed == "neither":\n                # open on both sides: a label that sits on an edge belongs to no bin (like pandas.cut)\n                idx[np.isin(flat, bins)] = -1\n', '', must_mention="neither"),
     V("datetime edges viewed as integers, labels handed over as they are", ("C07",), "R-CLOSEDSIDE", "core.py", '                idx = np.digitize(flat.view(np.int64), bins=bins.view(np.int64), right=right)', '                idx = np.digitize(flat, bins=bins.view(np.int64), right=right)', must_mention="representation"),
     V("first/last predicate recognises names only", ("C11", "C19"), "R-PREDFAMILY", "core.py", 'def _is_first_last_reduction(func: T_Agg) -> bool:\n    if isinstance(func, Aggregation):\n        func = func.name\n', 'def _is_first_last_reduction(func: T_Agg) -> bool:\n', must_mention="spelling"),
+    V("finalizer takes the last intermediate for the counts unconditionally", ("C05", "C03"), "R-COUNTER", "core.py", '    if min_count > 0:\n        counts = squeezed["intermediates"][-1]\n        squeezed["intermediates"] = squeezed["intermediates"][:-1]\n', '    counts = squeezed["intermediates"][-1]\n    if min_count > 0:\n        squeezed["intermediates"] = squeezed["intermediates"][:-1]\n', must_mention="last intermediate"),
     V("dtype promotion memoised with an untyped key", ("C14",), "R-MEMO", "xrdtypes.py", '        dtype = np.result_type(dtype, fill_value)\n    return dtype\n',
       '        dtype = _promote_for_fill_value(dtype, fill_value)\n    return dtype\n\n\n@functools.lru_cache\ndef _promote_for_fill_value(dtype: np.dtype, fill_value) -> np.dtype:\n    return np.result_type(dtype, fill_value)\n', must_mention="typed"),
     V("twin: dtype promotion memoised with typed=True", ("C14",), "", "xrdtypes.py", '        dtype = np.result_type(dtype, fill_value)\n    return dtype\n',
